@@ -70,7 +70,7 @@ def call_pool(rng):
 # size arguments of shm / shm buffer handles in the random sequences: 0 = 1024 bytes, 2 = 512 bytes (different, same page).
 # Size 1 (12288 bytes, three pages) against a smaller one is finding F5; it is exercised once, by a directed sequence,
 # so that it does not use up the violation budget of the random part.
-SHM_SIZES = [0, 0, 2, 2, 0]
+SHM_SIZES = [0, 0, 2, 2, 0, 3]     # index 3 = 8 bytes: too small for a buffer (p_shm_buffer_new must fail cleanly on it)
 
 
 def gen_case(rng, n, chk):
@@ -112,6 +112,9 @@ def directed_cases():
         out.append(["begin", "call lib_init", "call shm_new 0 1 %d x" % sizes[0], "call shm_new 1 1 %d x" % sizes[1], "call shmbuf_new 2 2 %d x" % sizes[0],
                     "call shmbuf_new 3 2 %d x" % sizes[1], "call shmbuf_rw 3 x", "call shm_free 1", "call shmbuf_free 3", "call shmbuf_free 2",
                     "call shm_free 0", "call lib_shutdown", "end"])
+    # a raw segment too small to hold a buffer: p_shm_buffer_new on the same name fails and must release its attachment
+    out.append(["begin", "call lib_init", "call shm_new 0 1 3 x", "call shmbuf_new 1 1 0 x", "call shmbuf_new 2 1 2 x", "call shm_own 0", "call shm_free 0",
+                "call lib_shutdown", "end"])
     # a handle opened with a smaller size than the segment (more than a page smaller): finding F5
     out.append(["begin", "call lib_init", "call shm_new 0 1 1 x", "call shm_new 1 1 0 x", "call shm_free 1", "call shm_free 0", "call lib_shutdown", "end"])
     out.append(["begin", "call lib_init", "call lib_shutdown", "call lib_init", "call cur_thread", "call lib_shutdown", "call lib_init",
